@@ -50,9 +50,12 @@ def main(argv):
     for p in patches:
         props = expected_props(p)
         if only:
-            props = [x for x in props if x in only] if any(o.startswith("C") for o in only) else props
-            if not props and not any(o in p for o in only):
+            by_prop = [o for o in only if re.fullmatch(r"C\d+", o)]
+            by_name = [o for o in only if o not in by_prop]
+            if by_name and not any(o in p for o in by_name):
                 continue
+            if by_prop and not by_name:
+                props = [x for x in props if x in by_prop]
         if props:
             jobs.append((p, props))
     res = []
